@@ -132,6 +132,8 @@ type linEnv struct {
 	names    map[*ssa.Parameter]string
 	depth    int
 	noInline bool
+	// allocAsName names a spilled local (value receiver, captured parameter) after its variable
+	allocAsName bool
 	// alias lets a rule rename atoms (e.g. all `src.End()` calls to "E").
 	alias func(v ssa.Value) (string, bool)
 }
@@ -156,6 +158,12 @@ func symName(v ssa.Value, env *linEnv) string {
 		return x.Name()
 	case *ssa.Global:
 		return x.Name()
+	case *ssa.Alloc:
+		if x.Comment != "" && x.Comment != "complit" {
+			if env != nil && env.allocAsName {
+				return x.Comment
+			}
+		}
 	case *ssa.UnOp:
 		if x.Op == token.MUL {
 			switch a := x.X.(type) {
@@ -316,6 +324,7 @@ func linOf(v ssa.Value, env *linEnv) lin {
 					sub.depth = env.depth + 1
 					sub.alias = env.alias
 					sub.noInline = env.noInline
+					sub.allocAsName = env.allocAsName
 				} else {
 					sub.depth = 1
 				}
